@@ -968,7 +968,7 @@ fn main() {
         return;
     }
     let mut rng = args.rng(0xA6E7);
-    let total = args.get("histories").map(|s| s.parse().unwrap()).unwrap_or(if args.thorough { 30000 } else { 1600 });
+    let total = args.get("histories").map(|s| s.parse().unwrap()).unwrap_or(if args.thorough { 120000 } else { 1600 });
     let mine = total / args.shards + if args.shard < total % args.shards { 1 } else { 0 };
     let mut stats = HashMap::new();
     for _ in 0..mine {
